@@ -100,6 +100,11 @@ def conclude(pid, tier, level, tally, coverage, assumptions, t0,
     coverage["known_findings_seen"] = sorted(seen_known)
     coverage["new_violation_fingerprints"] = sorted(new)[:20]
     coverage["violating_executions_total"] = tally.c.get("violations_total", 0)
+    if tally.c.get("stopped_after_violation_budget") or \
+            tally.c.get("aborted_after_runaway_executions"):
+        coverage["exhaustive"] = False
+        coverage["stopped_early"] = ("workers stopped after the violation budget / run-away "
+                                     "executions; the space was not fully explored")
     write_evidence(pid, tier, level, coverage, assumptions,
                    time.time() - t0, len(new))
     if new:
